@@ -63,8 +63,9 @@ class Line:
 
 
 class Unit:
-    def __init__(self, path):
+    def __init__(self, path, quarantine=()):
         self.path = path
+        self.quarantine = set(quarantine)   # functions whose body the verifier front end rejected: kept as contract only
         self.name = os.path.splitext(os.path.basename(path))[0]
         self.props = []
         self.rules = []
@@ -279,7 +280,7 @@ class Unit:
         # verified against its contract, so a change that removes the loop AND breaks the postcondition fails
         for k, lines in list(loops.items()):
             if k >= len(lps):
-                self.soft_undecided.append('%s: fn %s has %d loops, contract annotates loop %d' % (where, name, len(lps), k))
+                self.soft_undecided.append(dict(msg='%s: fn %s has %d loops, contract annotates loop %d' % (where, name, len(lps), k), props=list(props)))
                 continue
             ins.append((lps[k]['open'] - b0, 'loop%d' % k, lines))
         for k in range(len(lps)):
@@ -305,7 +306,7 @@ class Unit:
                     auto_for = True
         for k, lines in loopends.items():
             if k >= len(lps):
-                self.soft_undecided.append('%s: fn %s has %d loops, contract annotates the end of loop %d' % (where, name, len(lps), k))
+                self.soft_undecided.append(dict(msg='%s: fn %s has %d loops, contract annotates the end of loop %d' % (where, name, len(lps), k), props=list(props)))
                 continue
             ins.append((lps[k]['close'] - b0, 'proof', lines))
         cls = s.closures_in(f['open'] + 1, f['close'])
@@ -313,7 +314,7 @@ class Unit:
         # place for the invariant when EXPR is a shim iterator
         for k, lines in forloops.items():
             if k >= len(lps) or lps[k]['kind'] != 'for':
-                self.soft_undecided.append('%s: fn %s: contract annotates for-loop %d which is not there' % (where, name, k))
+                self.soft_undecided.append(dict(msg='%s: fn %s: contract annotates for-loop %d which is not there' % (where, name, k), props=list(props)))
                 continue
             lp = lps[k]
             hdr = s.text[lp['kw'] + 3:lp['open']]
@@ -349,7 +350,7 @@ class Unit:
                 hits = [mm for mm in re.finditer(m.group(1), body)]
                 want = int(m.group(2) or 0)
                 if len(hits) <= want:
-                    self.soft_undecided.append('%s: proof anchor /%s/ not found in fn %s' % (where, m.group(1), name))
+                    self.soft_undecided.append(dict(msg='%s: proof anchor /%s/ not found in fn %s' % (where, m.group(1), name), props=list(props)))
                     continue
                 off = body.rfind('\n', 0, hits[want].start()) + 1
                 ins.append((off, 'proof', lines))
@@ -386,6 +387,17 @@ class Unit:
         SEP = '/*@@SIGEND@@*/'
         joint = self.apply_subs(sig_pending + SEP + rendered, subs, where)
         sig_new, rendered = joint.split(SEP)
+        if name in self.quarantine:
+            # the body is outside what the verifier accepts on this tree: keep signature + contract (callers still
+            # verify against it), drop the body; the function itself is reported undecided
+            self.lines.append(Line('#[verifier::external_body]', ('tmpl', base, tline), fnkey))
+            self.emit_repo(s, f['start'], f['open'], text=sig_new.rstrip('\n'), fn=fnkey)
+            for ln, l in spec:
+                self.lines.append(Line(l, ('spec', base, ln, name, None, props), fnkey))
+            self.lines.append(Line('{ unimplemented!() }', ('tmpl', base, tline), fnkey))
+            self.soft_undecided.append(dict(msg='%s: body of %s is not accepted by the verifier front end on this tree (obligations of %s undecided)' % (where, name, ','.join(props)), props=list(props)))
+            self.quarantined_props = getattr(self, 'quarantined_props', set()) | set(props)
+            return
         # ---- emit signature, spec header, then the body
         if auto_for:
             self.lines.append(Line('#[verifier::exec_allows_no_decreases_clause]', ('tmpl', base, tline), fnkey))
@@ -833,7 +845,7 @@ class Unit:
         if bad:
             # not a violation by itself and not a reason to hide real failures: remembered, and the
             # unit is undecided if nothing else fails
-            self.soft_undecided.append('%s: unclassified use of `%s` in %s at line(s) %s' % (file, flag, fn, bad))
+            self.soft_undecided.append(dict(msg='%s: unclassified use of `%s` in %s at line(s) %s' % (file, flag, fn, bad), props=None))
         self.rewrites.append(('frame: %d uses of %s in %s, all in listed guards/call arguments' % (n, flag, fn), '%s:%d' % (file, s.line_of(lo)), 1))
         self.emit('// flaguse %s in %s: %d classified occurrences' % (flag, fn, n), ('tmpl', base, tline))
 
